@@ -34,23 +34,6 @@ type VerifC37Elem struct {
 	ErrText string // for messages only
 }
 
-// VerifC37PoolElems lists the elements of the pool from Front() on.
-func VerifC37PoolElems(tp *TransactionPool) []VerifC37Elem {
-	tp.mutex.Lock()
-	defer tp.mutex.Unlock()
-	var out []VerifC37Elem
-	for e := tp.list.Front(); e != nil; e = e.Next() {
-		el := VerifC37Elem{Tx: e.Value(), Direct: e.ts != 0}
-		if e.err != nil {
-			el.HasErr = true
-			el.ErrCode = int(errors.CodeOf(e.err))
-			el.ErrText = e.err.Error()
-		}
-		out = append(out, el)
-	}
-	return out
-}
-
 // VerifC37Handle keeps the elements a pool held at one moment, so that what a
 // later Candidate call wrote into them (e.err) and whether they are still
 // linked into the pool can be read even after the removal goroutine ran.
@@ -107,14 +90,6 @@ func VerifC37Balance(tr module.Transition, addr module.Address) *big.Int {
 		return new(big.Int)
 	}
 	return new(big.Int).Set(ass.GetBalance())
-}
-
-// VerifC37Loggers returns the patch and the normal TXID logger of a transition (nil before they are recorded).
-func VerifC37Loggers(tr module.Transition) (TXIDLogger, TXIDLogger) {
-	t := tr.(*transition)
-	t.mutex.Lock()
-	defer t.mutex.Unlock()
-	return t.ptxIDs, t.ntxIDs
 }
 
 // Error codes the harness classifies by.
